@@ -44,6 +44,7 @@ for round in 1 2; do
   [ -n "$SLOT" ] && break
 done
 [ -z "$SLOT" ] && exit 3
+[ -e "$SLOT" ] && [ ! -d "$SLOT" ] && rm -f "$SLOT"
 mkdir -p "$SLOT"
 # workspace members are never fresh: drop their fingerprints and metadata (names from the workspace itself)
 MEMBERS=$(cargo metadata --no-deps --offline --format-version 1 2>/dev/null | python3 -c "
@@ -61,10 +62,11 @@ done
 rm -rf "$SLOT"/debug/incremental 2>/dev/null
 run_cargo "$SLOT"
 rc=$?
-# keep the pool small: drop slots of other keys that nobody holds
-for d in "$POOL"/*; do
-  case "$d" in *.lock) continue;; "$POOL/$KEY"-*) continue;; esac
-  [ -d "$d" ] || continue
-  ( exec 8>"$d.lock"; flock -n 8 && rm -rf "$d" "$d.lock" ) 2>/dev/null
+# keep the pool small: drop slots of OTHER keys that nobody holds and nobody used for two hours (lock files are never unlinked,
+# so a lock always refers to one inode)
+find "$POOL" -maxdepth 1 -mindepth 1 -type d -mmin +120 2>/dev/null | while read -r d; do
+  case "$d" in "$POOL/$KEY"-*) continue;; esac
+  ( exec 8>"$d.lock"; flock -n 8 && rm -rf "$d" ) 2>/dev/null
 done
+[ -d "$SLOT" ] && touch "$SLOT" 2>/dev/null
 exit $rc
